@@ -12,6 +12,7 @@ package c09
 
 import (
 	"fmt"
+	"strings"
 	"sync"
 
 	"verifharness/vlib"
@@ -27,12 +28,16 @@ func exhLen(tier string) int    { return vlib.TierN(tier, 5, 6) }
 func exhBlocks(tier string) int { return vlib.TierN(tier, exhBlocksQuick, exhBlocksThorough) }
 func randCases(tier string) int { return vlib.TierN(tier, 752, 62208) }
 
+// classes added in round 4 (appended after the earlier case indices, which keep their meaning)
+func aliasCases(tier string) int { return vlib.TierN(tier, 160, 8000) }
+func retryCases(tier string) int { return vlib.TierN(tier, 320, 16000) }
+
 func init() {
 	vlib.Register(&vlib.Prop{
 		ID:              "C09",
 		Level:           "exploration",
 		RaceIsViolation: false,
-		Cases:           func(tier string) int { return exhBlocks(tier) + randCases(tier) },
+		Cases:           func(tier string) int { return exhBlocks(tier) + randCases(tier) + aliasCases(tier) + retryCases(tier) },
 		Rule: "exhaustive part (class exh): every middleware registration sequence over {router-level, handler A, handler B} of length 0..5 (quick) / 0..6 (thorough), " +
 			"with AddHandler(A)/AddHandler(B) in every position the API allows (before the first registration on that handler; both orders when adjacent), each also with " +
 			"adjacent same-target registrations folded into one variadic call when that differs; all before Run. The enumeration is cut into contiguous blocks, one block per case " +
@@ -41,12 +46,23 @@ func init() {
 			"Random part (class rand): batches of 8 programs with 4 handlers (names differing in case, by a suffix, optionally the empty name), 0..20 registrations, random variadic grouping, " +
 			"handlers started by Run or by one of up to two later RunHandlers calls (registrations for a handler only before the call that starts it), decorator lists 0..5 added before Run at random positions, " +
 			"shared or separate scripted Pub/Sub ends, 0..2 produced messages, some no-publisher handlers; half the programs call RunHandlers once more and send a second message to handlers with no later router-level registration. " +
+			"Class alias: rand programs in which 3 of 4 registration calls (Router.AddMiddleware, Handler.AddMiddleware, AddPublisherDecorators, AddSubscriberDecorators) pass their arguments as buf[:n]... " +
+			"with ONE caller-owned slice per kind that has spare capacity and is re-used by the following calls (each call overwrites the elements of the previous one); 40% of the aliased middleware calls extend a prefix of the previous call's " +
+			"arguments (append(base, x)... with a shared backing array: the same middleware value is registered again, possibly for another target), and after 40% of the aliased calls the caller overwrites every element with a " +
+			"never-registered middleware/decorator (ids > 9000). The model is computed from the argument VALUES at call time. " +
+			"Classes retry/pdec-fault, retry/sdec-fault, retry/subscribe-fault, retry/mixed: rand programs (with >=2 decorators of the faulted kind) plus 1..3 transient faults: a publisher/subscriber decorator constructor that " +
+			"returns an error on its n-th (n<=4) and possibly n+1-th invocation, or a handler subscriber whose first one or two Subscribe calls fail (after the decoration succeeded). A Run/RunHandlers call that returns the injected " +
+			"error is retried with RunHandlers until it returns nil, with no registration in between (after a failed Run half the programs first call Run again, which the router refuses with 'router is already running', then RunHandlers; the handlers a failed Run had started are stopped by Run's own context cancel and are not judged); " +
+			"handlers that a failed RunHandlers did start get their message before or after the retry. Every finally running handler must show each decorator exactly once in the order added (clauses retry-pubdec, retry-subdec) and its middleware chain. " +
 			"One message per started handler per round; each is judged against the reference model. " +
 			"A case is non-trivial when at least one judged handler ran >=2 middlewares mixing router-level and handler-level ones (nesting order observable) and at least one judged handler had a foreign " +
-			"handler's middleware registered before its start (exclusion observable); distinct = distinct block (exh) or distinct hash of the program texts (rand).",
+			"handler's middleware registered before its start (exclusion observable); alias cases need in addition >=1 aliased call; retry cases instead need >=1 fault that fired, >=1 judged handler that a failed call had left unstarted " +
+			"and >=1 judged handler with >=2 publisher or subscriber decorators; distinct = distinct block (exh) or distinct hash of the program texts incl. argument-passing marks and fault plans (rand, alias, retry).",
 		Assumptions: []string{
 			"all registrations that may affect a handler happen before the Run/RunHandlers call that starts it; before further registrations are made every started handler has handled one message (so its asynchronous middleware snapshot is taken): registrations after a handler's start are unspecified and never judged",
 			"decorators are added before Run only",
+			"what a registration call registers is the value of its arguments when the call is made: the caller may re-use, append to or overwrite its own slice after the call returned (Go passes s... by reference; the property speaks about registrations, not about slices)",
+			"retry classes: an error returned by a decorator or by Subscribe is transient and the caller reacts by calling RunHandlers again (godoc: 'RunHandlers is idempotent, so can be called multiple times safely'); a failing call registers nothing and must leave nothing behind that changes which decorators act on the handler's messages once it runs; only injected errors are retried, any other error is inconclusive",
 			"a message that is never handled although the process is quiescent is reported as clause no-run (decided by the quiescence detector); a hang in Close/Run-return is reported inconclusive, it belongs to C06/C07",
 			"data races are not claimed by this property (Router.AddMiddleware takes no lock; the workload orders it after the snapshots by construction)",
 		},
@@ -67,19 +83,29 @@ func run(e *vlib.Env) vlib.Result {
 		res.Count("exh_programs", hi-lo)
 		return res
 	}
-	if (e.Idx-nb)%8 == 7 {
+	if e.Idx < nb+randCases(e.Tier) && (e.Idx-nb)%8 == 7 {
 		return runConcurrentRegistration(e)
+	}
+	class, tag := "rand", "rand"
+	gen := randProgram
+	if k := e.Idx - nb - randCases(e.Tier); k >= aliasCases(e.Tier) {
+		fam := (k - aliasCases(e.Tier)) % nFamilies
+		class, tag = "retry/"+familyName[fam], "retry"
+		gen = func(r *vlib.Rand, id string) *program { return retryProgram(r, id, fam) }
+	} else if k >= 0 {
+		class, tag = "alias", "alias"
+		gen = aliasProgram
 	}
 	r := e.R.Fork()
 	progs := make([]*program, randProgsPerCase)
 	var texts []string
 	for i := range progs {
-		progs[i] = randProgram(r, fmt.Sprintf("%s.%d", e.ID(), i))
+		progs[i] = gen(r, fmt.Sprintf("%s.%d", e.ID(), i))
 		texts = append(texts, progs[i].String(), fmt.Sprint(shape(progs[i])))
 	}
-	res := runBatch(e, "rand", len(progs), func(i int) *program { return progs[i] })
-	res.Sig = vlib.Sig("rand", texts)
-	res.Count("rand_programs", len(progs))
+	res := runBatch(e, class, len(progs), func(i int) *program { return progs[i] })
+	res.Sig = vlib.Sig(class, texts)
+	res.Count(tag+"_programs", len(progs))
 	return res
 }
 
@@ -120,18 +146,9 @@ func runBatch(e *vlib.Env, class string, n int, prog func(i int) *program) vlib.
 		}()
 		for i := 0; i < n; i++ {
 			p := prog(i)
-			obs, st, v, inc := runProgram(p, fmt.Sprintf("%s.%s%d", e.ID(), class, i), pg)
+			obs, st, v, inc := runProgram(p, fmt.Sprintf("%s.%s%d", e.ID(), strings.SplitN(class, "/", 2)[0], i), pg)
 			mu.Lock()
-			tot.handlers += st.handlers
-			tot.events += st.events
-			tot.orderObs += st.orderObs
-			tot.mixObs += st.mixObs
-			tot.foreignObs += st.foreignObs
-			tot.pObs += st.pObs
-			tot.sObs += st.sObs
-			tot.late += st.late
-			tot.second += st.second
-			tot.wraps += st.wraps
+			tot.add(st)
 			if v != nil && viol == nil {
 				viol, violObs = v, obs
 			}
@@ -170,6 +187,20 @@ func runBatch(e *vlib.Env, class string, n int, prog func(i int) *program) vlib.
 	res.Count("second_round_messages", tot.second)
 	res.Count("middleware_constructor_calls", tot.wraps)
 	res.NonTrivial = tot.mixObs > 0 && tot.foreignObs > 0
+	switch {
+	case class == "alias":
+		res.Count("aliased_registration_calls", tot.aliasCalls)
+		res.Count("aliased_calls_overwritten_after_return", tot.poisoned)
+		res.NonTrivial = res.NonTrivial && tot.aliasCalls > 0
+	case strings.HasPrefix(class, "retry/"):
+		res.Count("faults_fired", tot.fired)
+		res.Count("start_calls_failed", tot.failedCalls)
+		res.Count("start_calls_failed_Run", tot.runFailed)
+		res.Count("second_Run_refused_then_RunHandlers", tot.runRefused)
+		res.Count("handlers_judged_after_failed_start_call", tot.afterRetry)
+		res.Count("handlers_stopped_by_failed_Run_not_judged", tot.dead)
+		res.NonTrivial = tot.fired > 0 && tot.afterRetry > 0 && tot.pObs+tot.sObs > 0
+	}
 	if smp != nil {
 		res.Sample = smp
 	}
